@@ -93,55 +93,78 @@ def rule_planners(ctx, P, rc, rd, backends):
                 rd.fail(f'{f.name}: terminator on success paths', func=f.name, sig='success path without terminator', loc=terms[0].loc,
                         msg='a path that returns >= 0 does not pass the store of the -1 terminator')
             continue
-        # RS / ISA-L shape
-        loops = natural_loops(f)
+        # RS / ISA-L shape: scan i = 0 .. k+m-1, append the usable ones, stop with 0 as soon as k are collected.
+        # Stated over polynomial forms (poly.py / loops.py): the position of the append, the count that is compared with k
+        # and the position of the terminator are related by identities, however count and cursor are written
+        # (index counter, walking pointer, pointer difference).
+        from ..poly import PolyCtx, Poly
+        from ..loops import loops_of, innermost
+        from ..cfg import reachable_from as _rf
+        pc = PolyCtx(P, f, C)
+        LS = loops_of(P, f, pc)
         idx_stores = [s for s in stores if s.ops[0] != '-1']
-        if not idx_stores or not loops:
+        L0 = innermost(LS, idx_stores[0].bb) if idx_stores else None
+        if not idx_stores or L0 is None:
             rd.undecided(f'{f.name}: planner loop', msg='no index store inside a loop')
             continue
         s0 = idx_stores[0]
-        lp = shared._loop_of(f, s0.bb)
-        h, body = lp
-        g = f.defs.get(s0.ops[1])
-        jv = strip_int_casts(f, g.ops[-1]) if g is not None and g.op == 'getelementptr' else None
-        incs = [i for b in body for i in b.insts if i.op == 'add' and jv in [strip_int_casts(f, o) for o in i.ops] and '1' in i.ops]
-        # the test count == k
-        tests = []
+        L = L0.via(s0.bb)                     # recurrences along iterations that append
+        body, h = L.body, L.header
+        def elem(ptr_operand, ctx_pc):
+            root, off = ctx_pc.ptr(ptr_operand)
+            if root != 'arg3' or any(x % 4 for x in off.values()):
+                return None
+            return Poly({k_: x // 4 for k_, x in off.items()})
+        pos = elem(s0.ops[1], L.pc)          # list position written by the append
+        Kp = None
+        # the test count == k on the appending iteration: an exiting or in-loop branch whose comparison, with merge values
+        # resolved along the append, reads (pos + 1) - k  (count after the append against k)
+        tests, pretests = [], []
         for b in body:
             t = b.insts[-1]
             if t.op == 'br' and len(t.targets) == 2 and t.ops:
                 c_ = f.defs.get(t.ops[0])
-                if c_ is not None and c_.op == 'icmp' and c_.pred in ('eq', 'ne', 'sge'):
-                    a_, b_ = C.val(strip_int_casts(f, c_.ops[0])), C.val(strip_int_casts(f, c_.ops[1]))
-                    if re.search(r'\.k$', a_) or re.search(r'\.k$', b_):
-                        tests.append((b, c_, t))
+                if c_ is not None and c_.op == 'icmp' and c_.pred in ('eq', 'ne', 'sge', 'sle', 'slt', 'sgt'):
+                    D = L.pc.val(c_.ops[0]) - L.pc.val(c_.ops[1])
+                    katoms = [a for a in D.atoms() if re.search(r'\.k$', a)]
+                    if pos is not None and len(katoms) == 1:
+                        Kp = Poly.atom(katoms[0])
+                        if D == pos + Poly.const(1) - Kp or D == Kp - pos - Poly.const(1):
+                            tests.append((b, c_, t))
+                        elif D == pos - Kp or D == Kp - pos:
+                            pretests.append((b, c_, t))
         inst = f'{f.name}: count == k is tested after every append before the loop can end'
-        if not incs or not tests:
+        if pos is not None and not tests and pretests:
+            rd.fail(inst, func=f.name, sig='count == k is tested before the append, not after it', loc=pretests[0][1].loc,
+                    msg='the number of collected fragments is compared with k before the current index is appended: after appending the k-th usable index '
+                        'as the last scanned one the loop ends without the test, and the call returns -1 with an unterminated list although k fragments are available')
+            continue
+        if pos is None or not tests:
             rd.fail(inst, func=f.name, sig='no count/k test in the loop', loc=s0.loc, msg='the planner never compares the number of collected fragments with k')
             continue
         tb, tc, tt = tests[0]
-        exits = [(b, s) for b in body for s in b.succs if s not in body]
-        inc = incs[0]
-        esc = reaches_without(f, inc.bb, lambda i: i.bb not in body, lambda i: i is tc, inc.idx + 1)
+        esc = reaches_without(f, s0.bb, lambda i: i.bb not in body, lambda i: i is tc, s0.idx + 1)
         if esc is None:
             rd.ok(inst, func=f.name, loc=tc.loc)
         else:
             rd.fail(inst, func=f.name, sig='loop can end after an append without the count == k test', loc=tc.loc,
                     msg='after appending the k-th usable index the loop may terminate (i reaches k+m) before "count == k" is evaluated: '
                         'the call returns -1 with an unterminated list although k fragments are available')
-        # success edge stores terminator at [count] and is the only source of 0
-        eqedge = f.blocks[tt.targets[0]] if tc.pred in ('eq', 'sge') else f.blocks[tt.targets[1]]
+        # success edge: the edge on which count == k holds stores the terminator at [count] and returns 0
+        lhs_is_count = (L.pc.val(tc.ops[0]) - L.pc.val(tc.ops[1])) == pos + Poly.const(1) - Kp
+        eq_true = tc.pred in ('eq',) or (tc.pred == 'sge' and lhs_is_count) or (tc.pred == 'sle' and not lhs_is_count)
+        eqedge = f.blocks[tt.targets[0]] if eq_true else f.blocks[tt.targets[1]]
         vals = returns_via_edge(f, tb, eqedge)
-        term_ok = any(s.bb is eqedge or s.bb in __import__('lecverif.cfg', fromlist=['x']).reachable_from(eqedge, avoid_blocks={h}) for s in terms)
-        tg = f.defs.get(terms[0].ops[1])
-        tidx = strip_int_casts(f, tg.ops[-1]) if tg is not None and tg.op == 'getelementptr' else None
-        jvals = {jv} | {i.res for i in incs}
-        phis = {p.res for b in body for p in b.insts if p.op == 'phi' and any(strip_int_casts(f, v) in jvals for v, _ in p.incoming)}
-        if vals == {0} and term_ok and (tidx in jvals or tidx in phis):
+        region = {eqedge} | set(_rf(eqedge, avoid_blocks={h}))
+        tpos = None
+        for tm in terms:
+            if tm.bb in region:
+                tpos = elem(tm.ops[1], L.pc)
+        if vals == {0} and tpos is not None and tpos == pos + Poly.const(1):
             rd.ok(f'{f.name}: count == k => fragments_needed[count] = -1, return 0', func=f.name, loc=terms[0].loc)
         else:
-            rd.fail(f'{f.name}: success edge', func=f.name, sig=f'count==k edge returns {sorted(map(str, vals))}, terminator at {C.val(tidx) if tidx else "?"}', loc=tt.loc,
-                    msg='the count == k edge must store the -1 terminator at [count] and return 0')
+            rd.fail(f'{f.name}: success edge', func=f.name, sig=f'count==k edge returns {sorted(map(str, vals))}, terminator at {tpos}', loc=tt.loc,
+                    msg=f'the count == k edge must store the -1 terminator right behind the last appended index (position {pos} + 1, found {tpos}) and return 0 (returns {sorted(map(str, vals))})')
         allret = set()
         for b in f.order:
             t = b.insts[-1]
@@ -152,13 +175,21 @@ def rule_planners(ctx, P, rc, rd, backends):
             rd.ok(f'{f.name}: returns only 0 or a negative value', func=f.name, loc=f.mod.src)
         else:
             rd.fail(f'{f.name}: return values', func=f.name, sig=f'returns {sorted(map(str, allret))}', loc=f.mod.src, msg='unexpected return values')
-        F = Facts(P, f, s0.bb)
-        iv = F.norm(s0.ops[0])
-        ub = [b for b, strict, sg in F.upper_bound_sym(iv) if strict]
-        if any(re.match(r'^\(\*.+\.k add \*.+\.m\)$', b) for b in ub):
+        # the appended value is the scan variable, which runs over [0, k+m)
+        val = L0.pc.val(s0.ops[0])
+        scan = [g_ for g_ in L0.guards() if g_.block is L0.header and Poly.atom(g_.iv) == val]
+        okscan = False
+        for g_ in scan:
+            T_ = L0.trip(g_)
+            init, step = L0.ivs()[g_.iv]
+            if T_ is not None and init is not None and init.is_zero() and len(T_) == 2 and all(v == 1 for v in T_.values()) and \
+               sorted(re.sub(r'^.*\.', '', k_[0]) for k_ in T_) == ['k', 'm']:
+                okscan = True
+        if okscan:
             rd.ok(f'{f.name}: stored indexes are the loop variable < k+m', func=f.name, loc=s0.loc)
         else:
-            rd.fail(f'{f.name}: stored index range', func=f.name, sig=f'index bound {ub}', loc=s0.loc, msg=f'indexes written to the list are bounded by {ub}, not k+m')
+            rd.fail(f'{f.name}: stored index range', func=f.name, sig=f'appended value {val}, scan {[str(L0.trip(g_)) for g_ in scan]}', loc=s0.loc,
+                    msg=f'the value appended to the list ({val}) is not a scan variable running over 0 .. k+m-1')
 
 def run(ctx):
     P = ctx.program()
